@@ -113,7 +113,13 @@ class Hist:
             return
         w = avail if x < 0.30 else rng.choice([1, 1, 2, rng.randrange(1, avail + 1)])
         w = min(w, avail)
-        self.emit(f"print {self.text(w)}", "print")
+        if rng.random() < 0.12:
+            # printn with a length shorter than the string (the known finding printn_zero_len, length 0 of a
+            # non-empty string, is probed from the corpus only)
+            t = self.text(w)
+            self.emit(f"printn {t}{rng.choice(['58', '5859', 'c3a9'])} {len(t) // 2}", "print"); dist["print:printn-prefix"] += 1
+        else:
+            self.emit(f"print {self.text(w)}", "print")
         if self.col + w == self.C:
             self.col, self.pw = self.C - 1, True; dist["print:to-last-col"] += 1
         else:
